@@ -15,6 +15,33 @@ def survivors(info, out, cfg):
     if cfg.ips and info.get('ip') and info['ip'] in text: s.append(('ip', 'attr.remote', info['ip']))
     return s
 
+def nonred_names():
+    """names of table entries (at any level) whose type is not Redactable and not a container: a leaf below a key of such a name is outside the oracle
+    (the name-based sufficient condition of the theorem C01_absent)"""
+    d = json.load(open(os.path.join(BUILD, 'dump.json')))
+    keep = {d['otypes'][t] for t in ('Redactable', 'OperatorArray', 'OperatorMap', 'Pipeline')}
+    out = set()
+    def walk(m):
+        for k, v in m['m']:
+            if isinstance(v, dict): walk(v)
+            elif v not in keep: out.add(k)
+    for n in d['tables']: walk(d['tables'][n])
+    return out
+
+def scalar_survivors(tin, tout, cfg, nonred):
+    """numbers (under --redactNumbers) and booleans (under --redactBooleans) inside the query-bearing places, on paths below no key named like a
+    non-redactable table entry, that are NOT the constant in the output: [(index path, key path, kind, value)]"""
+    from vlib.props import c14
+    out = []
+    if tin is None or tout is None or not (cfg.nums or cfg.bools): return out
+    for ip, kp, k, val, srch, sib in c14.zone_paths(tin):
+        if any(key in nonred for key in kp): continue
+        try: o = c14.get_by(tout, ip)
+        except Exception: continue
+        if k == 'bool' and cfg.bools and val is True and o is True: out.append((ip, kp, 'boolean', 'true'))
+        if k == 'num' and cfg.nums and isinstance(o, jtree.Num) and o.lit != '0' and o.lit == val.lit: out.append((ip, kp, 'number', val.lit))
+    return out
+
 def run(chk, replay=None):
     rng = random.Random(chk.seed)
     th = chk.tier == 'thorough'
@@ -26,8 +53,11 @@ def run(chk, replay=None):
     cases += _gen.collide_lines(streams.vocab())     # every operator-argument name as a user field name, systematically
     cases += streams.keyword_lines()                 # every bare word of the tables as a string VALUE
     cases += streams.deep_lines()                    # literals 50 .. 300 levels deep
+    cases += streams.crossclass_lines()              # one literal text at positions of different classes, in one line and over consecutive lines
     streams.note_distribution(chk, cases)
-    cfgs = streams.value_cfgs(rng, 8 if th else 3) + [Cfg(nums=True, bools=True, eager=['mydb', 'app_db', 'shop', 'd']), Cfg(encrypt=True, key=streams.KEY, nums=True, ips=True),
+    nonred = nonred_names()
+    # every combination of the two scalar switches occurs (numbers only, booleans only, both, none)
+    cfgs = streams.value_cfgs(rng, 8 if th else 3) + [Cfg(bools=True), Cfg(nums=True, repl='q'), Cfg(nums=True, bools=True, eager=['mydb', 'app_db', 'shop', 'd']), Cfg(encrypt=True, key=streams.KEY, nums=True, ips=True),
                                                     Cfg(repl='', nss=True), Cfg(eager=[''] if False else ['déb'], ips=True)]
     chk.rule = ("grammar-generated command lines (every verb, command / cmd / originatingCommand placement, all stages incl. search, nested sub-pipelines, arrays of arrays, "
                 "all extended-JSON wrappers, literal classes ASCII / Unicode / astral / e-mail / '$' inside / digits / escapes / empty / look-alike / long) with planted unique cores, "
@@ -42,6 +72,15 @@ def run(chk, replay=None):
             if si != sm or (isinstance(io, bytes) != isinstance(mo, bytes)):
                 chk.disagree('surviving planted literals', {'cfg': cfg.describe(), 'input': l.decode('utf-8', 'replace')}, str(si)[:300], str(sm)[:300])
             if info['sensitive'] or info['sens_numbers']: chk.nontriv((ci, l))
+            if (cfg.nums or cfg.bools) and not cfg.eager and isinstance(io, bytes) and len(l) < 20000:
+                tin = jtree.parse(l)
+                ssi = scalar_survivors(tin, jtree.parse(io), cfg, nonred)
+                ssm = scalar_survivors(tin, jtree.parse(mo), cfg, nonred) if isinstance(mo, bytes) else None
+                if ssm is not None and ssi != ssm:
+                    chk.disagree('surviving numbers / booleans per position', {'cfg': cfg.describe(), 'input': l.decode('utf-8', 'replace')[:3000]}, str(ssi)[:300], str(ssm)[:300])
+                for ip, kp, kind, val in ssi:
+                    chk.violate('%s literal survives under its redaction flag' % kind, {'cfg': cfg.describe(), 'path': list(kp), 'value': val, 'input': l.decode('utf-8', 'replace')[:3000],
+                                'output': io.decode('utf-8', 'replace')[:3000]}, tags=['leak', kind, 'positional'])
             if io == 'SKIP' or (isinstance(io, str) and io.startswith('PANIC')):
                 chk.violate('grammar line not emitted', {'cfg': cfg.describe(), 'input': l.decode('utf-8', 'replace'), 'result': io}, tags=['dropped'])
             for kind, where, core in si:
